@@ -5,7 +5,7 @@ request: {"mode": "c07"|"c08"|"c09"|"c17", "cases": [{"N":..,"m":..,"lower":[..]
 reply:   {"failures": [ {what, N, m, lower, upper, x, observed, expected}, ... ], "evaluated": n}
 Only used to replay counter-models / to look for a failing input after an obligation failed, and as the
 CPython cross-check of the executor; never the deciding step of a proof."""
-import sys, json, math
+import sys, math, json, math
 from fractions import Fraction as F
 import numpy as np
 from iOpt.evolvent.evolvent import Evolvent
@@ -19,7 +19,8 @@ def mk(case):
     up = case.get("upper") or [0.5] * N
     if case.get("via_setbounds"):
         # history: constructed for another box, then re-bound (the property holds for the configured bounds)
-        ev = Evolvent(np.array([l - 3.0 for l in lo], dtype=float), np.array([u + 5.0 for u in up], dtype=float), N, m)
+        # (the first box is given the way the shipped tests write bounds: plain integers)
+        ev = Evolvent([int(math.floor(l)) - 3 for l in lo], [int(math.ceil(u)) + 5 for u in up], N, m)
         ev.GetImage(0.25)
         ev.SetBounds(np.array(lo, dtype=float), np.array(up, dtype=float))
         return ev, N, m, lo, up
@@ -96,6 +97,11 @@ def c08(case, out):
             continue
         xa = float(F(idx, D ** m) + F(1, 2 * D ** m))
         xb = float(F(idx + 1, D ** m) + F(1, 2 * D ** m))
+        if n % 6 == 2:
+            # history (the property holds after any sequence of queries on the same object): the same image asked twice
+            # with an inverse query in between
+            ev.GetImage(xa)
+            ev.GetInverseImage(np.array([lo[i] + 0.37 * (up[i] - lo[i]) for i in range(N)]))
         ya, yb = ev.GetImage(xa), ev.GetImage(xb)
         n += 2
         ka, oka = cell_of(ya, N, m, lo, up)
